@@ -134,7 +134,7 @@ def floatOps : NumOps Float :=
 inductive Val (α : Type) where
   | scalar (a : α)
   | array (l : List α)
-  deriving Repr
+  deriving Repr, DecidableEq
 
 def Val.map {α : Type} (f : α → α) : Val α → Val α
   | .scalar a => .scalar (f a)
